@@ -183,6 +183,12 @@ Definition watch_del (k : key) (s : state) : state :=
 Fixpoint iter (n : nat) (f : state -> state) (s : state) : state :=
   match n with O => s | S n' => iter n' f (f s) end.
 
+(* handleWatchEvents :275-312 on a response carrying several events: one after the other, in order *)
+Definition apply_batch (evs : list bev) (s : state) : state :=
+  fold_left (fun s b => match b with BPut k v => watch_put k v s | BDel k => watch_del k s end) evs s.
+
+Definition bcall (b : bev) : call := match b with BPut k v => CAdd k v | BDel k => CDel k end.
+
 Section Cluster.
   Variable under : key -> bool.   (* keys selected by makeKeyPrefix(key) + WithPrefix *)
   Variable store : bool.
@@ -220,6 +226,10 @@ Section Cluster.
         let s1 := mkS (etcd s) (rev s) (cvals s) (subs s ++ [replay]) (nwatch s) in
         let s2 := handle_changes store oa od (snapshot_of s1) s1 in
         mkS (etcd s2) (rev s2) (cvals s2) (subs s2) (S (nwatch s))
+    | Batch items =>
+        (* every open stream of the prefix receives the response (the events under the prefix) *)
+        let s1 := mkS (fold_left bev_step items (etcd s)) (length items + rev s) (cvals s) (subs s) (nwatch s) in
+        iter (nwatch s) (apply_batch (filter (fun b => under (bkey b)) items)) s1
     end.
 
   Definition run_from (s : state) (h : list ev) : state := fold_left step h s.
@@ -286,3 +296,70 @@ Fixpoint arrived (sched : list (option call)) : list call :=
   | None :: r => somes r
   | Some _ :: r => arrived r
   end.
+
+(* ------------------------------------------------------------------ several prefixes on one cluster *)
+(* c.values and c.listeners are keyed by the subscribed key; Registry.Monitor / cluster.monitor touch only
+   their key; reload (:124-143) runs load + watch for EVERY key of c.listeners, each goroutine with its own copy
+   (`k := key`, go 1.19 loop-variable semantics). So a cluster with several prefixes is the product of
+   single-prefix clusters over the same store and the same connection events. *)
+Inductive mev := MEv (e : ev) | MSub (i : nat) (oc oa od : list key).
+
+Definition project (i : nat) (h : list mev) : list ev :=
+  flat_map (fun m => match m with
+                     | MEv e => [e]
+                     | MSub j oc oa od => if Nat.eqb i j then [Subscribe oc oa od] else []
+                     end) h.
+
+Definition mrun (us : nat -> key -> bool) (h : list mev) (i : nat) : state := run (us i) (project i h).
+
+(* ------------------------------------------------------------------ publisher.go *)
+(* The scripted etcd with leases: key |-> lease it is attached to (the value is the publisher's constant value);
+   Grant hands out p_next. fullKey = key/id (WithId) or key/lease (:92-96), encoded 2*id / 2*lease+1. *)
+Inductive pmode := PIdle | PActive | PPaused | PStopped.
+
+Record pstate := mkP {
+  p_store : list (key * nat);
+  p_next : nat;
+  p_lease : nat;              (* p.lease :24 *)
+  p_mode : pmode;             (* what the keepAliveAsync goroutine is doing *)
+  p_events : list ev          (* what the store emitted (all delivered) *)
+}.
+
+Definition pinit : pstate := mkP [] 1 0 PIdle [].
+
+Definition full_key (id : option nat) (lease : nat) : key :=
+  match id with Some n => 2 * n | None => 2 * lease + 1 end.
+
+(* client.Revoke: every key attached to the lease disappears *)
+Definition p_revoke (s : pstate) : pstate :=
+  let gone := filter (fun kl => Nat.eqb (snd kl) (p_lease s)) (p_store s) in
+  mkP (filter (fun kl => negb (Nat.eqb (snd kl) (p_lease s))) (p_store s)) (p_next s) (p_lease s) (p_mode s)
+      (p_events s ++ map (fun kl => Del (fst kl) true) gone).
+
+(* KeepAlive :53-68 = register (:85-100: Grant, Put with the lease) and p.lease = the new lease *)
+Definition p_register (id : option nat) (v : val) (s : pstate) : pstate :=
+  let l := p_next s in
+  let k := full_key id l in
+  mkP ((k, l) :: filter (fun kl => negb (Nat.eqb (fst kl) k)) (p_store s)) (S l) l PActive
+      (p_events s ++ [Put k v true]).
+
+Inductive pop := OStart | OLose (expired : bool) | OPause | OResume | OStop.
+
+(* keepAliveAsync :102-139 *)
+Definition pstep (id : option nat) (v : val) (s : pstate) (o : pop) : pstate :=
+  match o, p_mode s with
+  | OStart, PIdle => p_register id v s
+  | OLose expired, PActive =>
+      (* the keep-alive channel closes (:111-118); when the lease really expired etcd has dropped its keys already *)
+      let s1 := if expired then p_revoke s else s in
+      p_register id v (p_revoke s1)
+  | OPause, PActive =>
+      let s1 := p_revoke s in mkP (p_store s1) (p_next s1) (p_lease s1) PPaused (p_events s1)
+  | OResume, PPaused => p_register id v s
+  | OStop, PActive =>
+      let s1 := p_revoke s in mkP (p_store s1) (p_next s1) (p_lease s1) PStopped (p_events s1)
+  | OStop, PPaused => mkP (p_store s) (p_next s) (p_lease s) PStopped (p_events s)
+  | _, _ => s          (* the call is not possible in this state (it would block) *)
+  end.
+
+Definition prun (id : option nat) (v : val) (ops : list pop) : pstate := fold_left (pstep id v) ops pinit.
